@@ -11,7 +11,7 @@ HEAD = """# Independently seeded property-breaking changes
 Each directory holds `patch.diff` (against /repo at the time of seeding), the seeder's demonstration, its README and `meta.json`
 (written by `tools/seed_intake.py`: the patch applies to a scratch copy, the 186 pinned tests still pass, the demonstration passes on the
 unchanged tree and fails with the change, and which checks report it). The seeders were sub-agents given only the property
-text and a scratch worktree; nothing from /verif. Seeders of rounds 2 to 8 were additionally told what earlier rounds had tried for their
+text and a scratch worktree; nothing from /verif. Seeders of rounds 2 to 9 were additionally told what earlier rounds had tried for their
 property. A tier suffix `:thorough` means the quick tier of that check does not reach the change and the thorough tier does.
 
 | seed | property | tests pass | demo ok/fails | reported by | change |
